@@ -166,6 +166,14 @@ def r2(cx, rec):
             cf, r = closure_ret(F, clo[0][1])
             pred = r
     okpred = pred is not None and pred[0] == 'call' and pred[4].get('name') == 'ne' and pred[2][1][0] == 'agg' and pred[2][1][3] == 'Have' and status_field(F) in show(pred[2][0])
+    if okc and okpred and clo:
+        # nothing but `status != Have` decides what is counted (no further conjunct / disjunct)
+        from rules.C14 import closure_truth
+        rows = closure_truth(F, F.fn(clo[0][1]))
+        extra = sorted({k for a, r in rows for k in a if 'session::Status::Have' not in k})
+        okpred = not extra and any(r for a, r in rows) and any(not r for a, r in rows)
+        if extra:
+            rec.site(Ch, sb, 'still-missing predicate also depends on %s' % [k[-60:] for k in extra])
     lid = ce[2][-1] if ce[2][0] in ('var', 'mvar') and isinstance(ce[2][-1], int) else None
     if not okc and lid is not None:
         # explicit loop: a counter initialised to 0 and incremented only behind `status[i] != Have` for a loop index i
@@ -352,3 +360,9 @@ def r5(cx, rec):
     rec.need(ok, 'have-not-always-recorded', H, None,
              'a Have announcement can be handled without recording it in the advertised set: the availability counts and the set of '
              'pieces this peer can give go stale, and a piece it has is never asked from it')
+
+
+@TABLE.rule('6', 'K1', 'the choice is made on up-to-date statuses: a handler that changes a status itself does so before it chooses (shared with C12)', floor=2)
+def r6(cx, rec):
+    from rules import C12
+    C12.r6b(cx, rec)
